@@ -42,8 +42,8 @@ void GMGPolar::solve()
 
     number_of_iterations_ = 0;
 
-    double initial_residual_norm;
-    double current_residual_norm, current_relative_residual_norm;
+    double initial_residual_norm = 0.0;
+    double current_residual_norm = 0.0, current_relative_residual_norm = 0.0;
 
     while (number_of_iterations_ < max_iterations_) {
 
